@@ -72,7 +72,12 @@ fn main() {
                 std::process::exit(2);
             }
             println!("replay check={check} args={a:?}");
-            println!("{}", out.last_verdict.clone().unwrap_or_else(|| "no verdict".into()));
+            for v in &out.verdicts {
+                println!("{v}");
+            }
+            if out.verdicts.is_empty() {
+                println!("no verdict");
+            }
             let bad: u64 = out.sig_counts.values().sum();
             std::process::exit(if bad > 0 { 1 } else { 0 });
         }
